@@ -11,6 +11,19 @@ def run(tier, rep):
     pc.check(rep, "C01", tier, ["children", "attrs", "text", "docs3"], {"unsound"}, "C01",
              sessions=400 if tier == "quick" else 6000, nontrivial=pc.has_demotion_or_multi, rule=RULE,
              invariants=["TypeOK", "Sound", "StackWF", "ResultWF"])
+    # the composition parser -> renderer on the model: the *rendered* structs describe every consumed document
+    from . import common as c
+    from . import render_common as rc0
+    k = dict(HashOrder=False, MaxDepth=3, MaxText=1, MaxIgn=0, TextKinds={"Text"}, IgnKinds=set(), Forms={"Start", "Empty"},
+             Faults=False, EmptyDocs=False, Emit=False)
+    for names, budget in ([(["ns:a", "b"], "<<3, 1>>")] if tier == "quick" else
+                          [(["ns:a", "b"], "<<3, 2>>"), (["type", "Item"], "<<3, 2>>"), (["a-b", "a"], "<<4, 1>>")]):
+        r = c.run_tlc("MC_Pipeline", c.cfg_text(spec="MCSpec", constants=k, invariants=["TypeOK", "Exact", "RenderedSound"]),
+                      "C01-pipeline", coverage=False, timeout=1500,
+                      defs={"Names": rc0.tla_pool(names), "RootName": rc0.tla_str("r"),
+                            "AttrLists": "{<<>>, <<%s>>}" % rc0.tla_str("ns:p"), "OccBudget": budget})
+        pc.model_violation(rep, r, "MC_Pipeline")
+        rep.add(states=r.distinct, transitions=r.generated, pipeline_states=r.distinct)
     # renderer half: every attribute / child / text of the tree has a field bound to its XML (local) name with the
     # Option / Vec / String wrappers of the tree's flags (RenderProps!ReflectTags on the real output)
     from . import render_common as rc
